@@ -73,6 +73,13 @@ pub fn check(t: &Trace<'_>, out: &mut CaseOut) -> bool {
                 if op.conn.and_then(|c| t.conns[c].mps).is_some_and(|m| m <= 8) {
                     out.count("acks_owed_under_tiny_limit", 1);
                 }
+                // nothing the client owes is longer than 5 bytes except retained requests: with a
+                // limit of 5 or more and every retained packet within it, nothing is too large
+                if let (Some(mps), Some(b)) = (op.conn.and_then(|c| t.conns[c].mps), &op.snap_before) {
+                    if mps >= 5 && b.tx.retained.iter().all(|e| e.len <= mps as usize) {
+                        out.violations.push(viol("C14", "C14/fitting-packet-refused", format!("op#{} {} returned PacketTooLarge although the limit is {} and every pending packet fits (retained lengths {:?}, {} PUBREL(s), {} acknowledgement(s) of at most 5 bytes)", i, op.kind, mps, b.tx.retained.iter().map(|e| e.len).collect::<Vec<_>>(), b.tx.release.len(), b.tx.control.len())));
+                    }
+                }
                 nontrivial = true;
                 if op.live_after {
                     // retained replay that does not fit is refused on every poll without closing: recorded, see DESIGN (stall)
